@@ -18,7 +18,7 @@ from harness.props import c06
 from harness.props.c06 import fr, tok_num, tok_opt, tok_unit, tok_val, close, U, observe
 
 PROP = 'C16'
-GENERATED = ['TimeUnits', 'TimeParConsts', 'HazardExprs']
+GENERATED = ['TimeUnits', 'TimeParConsts', 'HazardExprs', 'TimeDecls']
 DRIVER = 'Drivers/C16.lean'
 DRIVER_MODULES = ['StarsimModel.Model.Hazard', 'StarsimModel.Model.TimePar', 'StarsimModel.Model.Proto']
 RULE = ('seeded (sim unit, dt) x (module unit, dt) x rate form (TimePar of any unit / plain number / year-sex-age table) x agents; '
@@ -270,6 +270,8 @@ def correspond(ctx):
     correspond_round1(ctx)
     from harness.props import c16_round2 as r2
     r2.correspond(ctx, sys.modules[__name__])
+    from harness.props import c16_round3 as r3
+    r3.correspond(ctx, sys.modules[__name__])
 
 
 def delivery_prob(su, sdt, dur, P):
@@ -448,6 +450,16 @@ def _r2(name):
 ORACLES.update({k: _r2(k) for k in ('births_series', 'deaths_times', 'fert_table', 'coverage_years', 'disease_pars', 'disease_durations', 'edges')})
 
 
+def _r3(name):
+    def f(a):
+        from harness.props import c16_round3 as r3
+        return r3.ORACLES[name](a, sys.modules[__name__])
+    return f
+
+
+ORACLES.update({k: _r3(k) for k in ('declared', 'builtin', 'pool', 'infect')})
+
+
 def run_oracle(ctx, name, args):
     try:
         fails = ORACLES[name](args)
@@ -481,6 +493,8 @@ def search(ctx):
         run_oracle(ctx, 'net_beta', dict(sim=[su, sdt, dur], beta=rng.choice([0.1, 0.05, 0.5])))
     from harness.props import c16_round2 as r2
     r2.search(ctx, sys.modules[__name__], run_oracle)
+    from harness.props import c16_round3 as r3
+    r3.search(ctx, sys.modules[__name__], run_oracle)
     run_oracle(ctx, 'events', dict(kind='births', dts=[1.0, 0.5, 0.2], seed=rng.randint(1, 10 ** 6)))
     run_oracle(ctx, 'events', dict(kind='deaths', dts=[0.5], seed=rng.randint(1, 10 ** 6)))
     for k in ctx.known:
